@@ -16,6 +16,9 @@ def chomp_spec(format_spec, word):
 
 
 def escape_dunders(text):
+    if not isinstance(text, str):
+        # e.g., the name of what was called, when it is not a name at all
+        return text
     if text[:2] == '__' and text[-2:] == '__':
         return "\\_\\_" + text[2:-2] + "\\_\\_"
     return text
